@@ -18,37 +18,160 @@ def first_error(res, errs_key):
 
 
 def check_entry(out, what, where, res, errors_of, value_of, extra_log=()):
-    """The three relations of the property on the implementation's own three runs."""
+    """The three relations of the property on the implementation's own three runs (failures appended to `out`, a list)."""
     s, l, t = res["Silent"], res["Lenient"], res["Strict"]
     es, el = errors_of(s), errors_of(l)
     for name, r in (("Silent", s), ("Lenient", l)):
         exc = r.get("exc") or r.get("init_exc") or r.get("iter_exc")
         if exc and exc.startswith("MafFormatException"):
-            out.failures.append(dict(where, what="%s: %s mode raised the format exception" % (what, name), kind="nonstrict-raises", got=exc))
+            out.append(dict(where, what="%s: %s mode raised the format exception" % (what, name), kind="nonstrict-raises", got=exc))
             return
     if value_of(s) != value_of(l) or es != el:
-        out.failures.append(dict(where, what="%s: Silent and Lenient differ in what they return or collect" % what, kind="silent-lenient-differ",
-                                 silent=es, lenient=el))
+        out.append(dict(where, what="%s: Silent and Lenient differ in what they return or collect" % what, kind="silent-lenient-differ",
+                        silent=es, lenient=el))
         return
     if es is None:
         return   # a non-format exception in the non-strict modes: not this property's business (C16)
     if [x for x in s.get("logs", []) if x[0] != "OTHER:DEBUG"]:
-        out.failures.append(dict(where, what="%s: Silent emitted log records" % what, kind="silent-logs", got=s.get("logs")))
+        out.append(dict(where, what="%s: Silent emitted log records" % what, kind="silent-logs", got=s.get("logs")))
     llog = [x for x in l.get("logs", []) if x[0] not in extra_log]
     missing = [e for e in el if e not in llog]
     if missing or len(llog) < len(el):
-        out.failures.append(dict(where, what="%s: Lenient did not warn about every collected error" % what, kind="lenient-logs",
-                                 errors=el, logs=l.get("logs")))
+        out.append(dict(where, what="%s: Lenient did not warn about every collected error" % what, kind="lenient-logs",
+                        errors=el, logs=l.get("logs")))
     texc = t.get("exc") or t.get("init_exc") or t.get("iter_exc")
     if es:
         want = "MafFormatException:%s:%s" % (es[0][0], es[0][1])
         if texc != want:
-            out.failures.append(dict(where, what="%s: Strict did not fail with the first collected error" % what, kind="strict-first-error",
-                                     expected=want, got=texc))
+            out.append(dict(where, what="%s: Strict did not fail with the first collected error" % what, kind="strict-first-error",
+                            expected=want, got=texc))
     else:
         if texc or value_of(t) != value_of(s):
-            out.failures.append(dict(where, what="%s: no error collected but Strict differs from Silent" % what, kind="strict-differs",
-                                     got=texc or "different value"))
+            out.append(dict(where, what="%s: no error collected but Strict differs from Silent" % what, kind="strict-differs",
+                            got=texc or "different value"))
+
+
+# ---- one eval_* per entry point: the input processed in the three modes + the oracle.
+# Each returns {"req": the line-protocol request (entries compared with the model) or None, "res": {mode: answer},
+#               "failures": [...], "nontrivial": at least one error collected}.
+def eval_header(lines):
+    req = {"op": "hdr.lines", "lines": lines}
+    res = three(req)
+    fails = []
+    check_entry(fails, "header parsing", {"entry": "header", "lines": lines}, res,
+                lambda r: r["header"]["errors"] if "header" in r else None,
+                lambda r: (r.get("header") or {}).get("records"))
+    return {"req": req, "res": res, "failures": fails, "nontrivial": bool(res["Silent"].get("header", {}).get("errors"))}
+
+
+def eval_record(ann, line, lineno):
+    req = {"op": "rec.from_line", "scheme": ann, "line": line, "lineno": lineno,
+           "floats": float_table(line.rstrip("\r\n").split("\t"))}
+    res = three(req)
+    fails = []
+    check_entry(fails, "record parsing", {"entry": "record", "scheme": ann, "line": line, "lineno": lineno}, res,
+                lambda r: r["rec"]["errors"] if "rec" in r else None,
+                lambda r: (r.get("rec") or {}).get("slots"))
+    return {"req": req, "res": res, "failures": fails, "nontrivial": bool(res["Silent"].get("rec", {}).get("errors"))}
+
+
+def eval_file(lines, given=None, given_norestrict=None):
+    allf = [p for l in lines for p in l.rstrip("\r\n").split("\t")]
+    req = {"op": "reader.run", "lines": lines, "floats": float_table(allf)}
+    # a scheme given by the caller overrides the header's (version mismatch is an error)
+    if given_norestrict is not None:
+        req["given_norestrict"] = given_norestrict
+    elif given is not None:
+        req["given"] = given
+    res = three(req)
+
+    def errs(r):
+        if "init_exc" in r:
+            return None if not r["init_exc"].startswith("MafFormatException") else []
+        return r["errors"]
+    fails = []
+    # Strict stops at the first failing stage: the error it carries is the first of the whole list
+    check_entry(fails, "whole-file reading", {"entry": "file", "lines": lines, "given": given, "given_norestrict": given_norestrict}, res, errs,
+                lambda r: [x["keys"] for x in r.get("records", [])] if not (r.get("init_exc") or r.get("iter_exc")) else None,
+                extra_log=("NO_MATCHING_SCHEME_WARNING",))
+    return {"req": req, "res": res, "failures": fails, "nontrivial": bool(res["Silent"].get("errors"))}
+
+
+def _modes():
+    from maflib.validation import ValidationStringency as VS
+    return {"Strict": VS.Strict, "Lenient": VS.Lenient, "Silent": VS.Silent}
+
+
+def eval_validate(ann, line):
+    """record.validate(stringency) on a record parsed (Silent) from the line (implementation only)."""
+    from maflib.record import MafRecord
+    from maflib.validation import ValidationStringency as VS
+    sch = impl.scheme_by_annotation(ann)
+    res = {}
+    for mname, mode in _modes().items():
+        rec = MafRecord.from_line(line, scheme=sch, validation_stringency=VS.Silent)
+        with impl.LogCapture() as lc:
+            try:
+                errs = rec.validate(validation_stringency=mode, scheme=sch)
+                res[mname] = {"errors": impl.errs_json(errs), "value": str(rec)}
+            except Exception as e:  # noqa
+                res[mname] = {"exc": exc_name(e)}
+        res[mname]["logs"] = lc.parsed()
+    fails = []
+    check_entry(fails, "record validation", {"entry": "validate", "scheme": ann, "line": line}, res,
+                lambda r: r.get("errors") if "exc" not in r or not r["exc"].startswith("MafFormat") else [],
+                lambda r: r.get("value"))
+    return {"req": None, "res": res, "failures": fails, "nontrivial": bool(res["Silent"].get("errors"))}
+
+
+def eval_write(ann, line):
+    """A writer (default header of the layout, caller handle) offered the record parsed (Silent) from the line."""
+    from maflib.header import MafHeader
+    from maflib.record import MafRecord
+    from maflib.validation import ValidationStringency as VS
+    from maflib.writer import MafWriter
+    sch = impl.scheme_by_annotation(ann)
+    wres = {}
+    for mname, mode in _modes().items():
+        rec = MafRecord.from_line(line, scheme=sch, validation_stringency=VS.Silent)
+        buf = io.StringIO()
+        buf.close = lambda: None
+        with impl.LogCapture() as lc:
+            try:
+                h = MafHeader.from_defaults(version=sch.version(), annotation=ann if ann != sch.version() else None)
+                w = MafWriter.from_fd(buf, h, validation_stringency=mode)
+                w += rec
+                w.close()
+                wres[mname] = {"errors": impl.errs_json(rec.validation_errors), "value": buf.getvalue()}
+            except Exception as e:  # noqa
+                wres[mname] = {"exc": exc_name(e), "value": buf.getvalue()}
+        wres[mname]["logs"] = lc.parsed()
+    fails = []
+    check_entry(fails, "writing", {"entry": "write", "scheme": ann, "line": line}, wres,
+                lambda r: r.get("errors") if "exc" not in r or not r["exc"].startswith("MafFormat") else [],
+                lambda r: r.get("value") if "exc" not in r else None)
+    return {"req": None, "res": wres, "failures": fails, "nontrivial": bool(wres["Silent"].get("errors"))}
+
+
+def compare_model(ctx, reqs3):
+    """Correspondence of the three-mode runs -> (unmodelled, dontcare, disagreements, [(request, model, impl)])."""
+    all_reqs = [dict(r, mode=m) for r in reqs3 for m in ("Strict", "Lenient", "Silent")]
+    mo = ctx.driver.run(all_reqs)
+    unmodelled, dontcare, dis, triples = 0, 0, [], []
+    for r, m in zip(all_reqs, mo):
+        i = impl.run(r)
+        triples.append((r, m, i))
+        if has_unmodelled(m):
+            unmodelled += 1
+        elif m != i:
+            texts = r.get("lines") or [r.get("line", "")]
+            if any(colcases.dontcare_numeric(p) or colcases.dontcare_uuid(p) for l in texts for f in l.split("\t") for p in [f] + f.split(";")):
+                dontcare += 1
+            else:
+                keys = [k for k in sorted(set(m) | set(i)) if m.get(k) != i.get(k)]
+                dis.append({"op": r["op"], "mode": r["mode"], "differs": keys,
+                            "input": r.get("lines") or r.get("line")})
+    return unmodelled, dontcare, dis, triples
 
 
 def run(ctx):
@@ -60,118 +183,122 @@ def run(ctx):
     # 1. header parsing
     for _ in range(ctx.scale(300, 3000)):
         lines = filecases.header_lines(rng)
-        res = three({"op": "hdr.lines", "lines": lines})
+        e = eval_header(lines)
         out.evaluations += 3
-        check_entry(out, "header parsing", {"lines": lines}, res,
-                    lambda r: r["header"]["errors"] if "header" in r else None,
-                    lambda r: (r.get("header") or {}).get("records"))
-        if res["Silent"].get("header", {}).get("errors"):
+        out.failures += e["failures"]
+        if e["nontrivial"]:
             out.nontrivial.add(("hdr", repr(lines)))
-        reqs3.append({"op": "hdr.lines", "lines": lines})
+        reqs3.append(e["req"])
     # 2. record parsing
     for ann in ["gdc-1.0.0", "gdc-1.0.0-public", "gdc-2.0.0-aliquot-merged"]:
         for line in colcases.line_cases(ann, rng, ctx.scale(60, 500)):
-            req = {"op": "rec.from_line", "scheme": ann, "line": line, "lineno": rng.randrange(1, 99),
-                   "floats": float_table(line.rstrip("\r\n").split("\t"))}
-            res = three(req)
+            e = eval_record(ann, line, rng.randrange(1, 99))
             out.evaluations += 3
-            check_entry(out, "record parsing", {"scheme": ann, "line": line}, res,
-                        lambda r: r["rec"]["errors"] if "rec" in r else None,
-                        lambda r: (r.get("rec") or {}).get("slots"))
-            if res["Silent"].get("rec", {}).get("errors"):
+            out.failures += e["failures"]
+            if e["nontrivial"]:
                 out.nontrivial.add(("rec", ann, line))
-            reqs3.append(req)
+            reqs3.append(e["req"])
     # 3. whole-file reading
     for _ in range(ctx.scale(250, 2500)):
         ann = rng.choice([None, "gdc-1.0.0", "gdc-1.0.0-public"])
         lines = filecases.whole_file(rng, ann, sort=None, col=rng.random() < 0.9)
-        allf = [p for l in lines for p in l.rstrip("\r\n").split("\t")]
-        req = {"op": "reader.run", "lines": lines, "floats": float_table(allf)}
+        given = given_norestrict = None
         k = rng.random()
         if k < 0.15:      # a scheme given by the caller overrides the header's (version mismatch is an error)
-            req["given_norestrict"] = rng.choice([["c1", "c2", "c3", "c4"], ["a", "b", "c", "d"], ["x"]])
+            given_norestrict = rng.choice([["c1", "c2", "c3", "c4"], ["a", "b", "c", "d"], ["x"]])
         elif k < 0.3:
-            req["given"] = rng.choice(["gdc-1.0.0", "gdc-1.0.0-public"])
-        res = three(req)
+            given = rng.choice(["gdc-1.0.0", "gdc-1.0.0-public"])
+        e = eval_file(lines, given, given_norestrict)
         out.evaluations += 3
-
-        def errs(r):
-            if "init_exc" in r:
-                return None if not r["init_exc"].startswith("MafFormatException") else []
-            return r["errors"]
-        sres = res["Silent"]
-        # Strict stops at the first failing stage: the error it carries is the first of the whole list
-        check_entry(out, "whole-file reading", {"lines": lines}, res, errs,
-                    lambda r: [x["keys"] for x in r.get("records", [])] if not (r.get("init_exc") or r.get("iter_exc")) else None,
-                    extra_log=("NO_MATCHING_SCHEME_WARNING",))
-        if sres.get("errors"):
+        out.failures += e["failures"]
+        if e["nontrivial"]:
             out.nontrivial.add(("file", repr(lines)))
-        reqs3.append(req)
+        reqs3.append(e["req"])
     # 4. record validation + 5. writing (implementation only)
     validation_and_writer(ctx, out, rng)
     # correspondence of the three-mode runs
-    all_reqs = [dict(r, mode=m) for r in reqs3 for m in ("Strict", "Lenient", "Silent")]
-    mo = ctx.driver.run(all_reqs)
-    for r, m in zip(all_reqs, mo):
-        i = impl.run(r)
-        if has_unmodelled(m):
-            out.unmodelled += 1
-        elif m != i:
-            texts = r.get("lines") or [r.get("line", "")]
-            if any(colcases.dontcare_numeric(p) or colcases.dontcare_uuid(p) for l in texts for f in l.split("\t") for p in [f] + f.split(";")):
-                out.dontcare += 1
-            else:
-                keys = [k for k in sorted(set(m) | set(i)) if m.get(k) != i.get(k)]
-                out.disagreements.append({"op": r["op"], "mode": r["mode"], "differs": keys,
-                                          "input": r.get("lines") or r.get("line")})
+    unmodelled, dontcare, dis, _t = compare_model(ctx, reqs3)
+    out.unmodelled += unmodelled
+    out.dontcare += dontcare
+    out.disagreements += dis
     return out
 
 
 def validation_and_writer(ctx, out, rng):
-    from maflib.header import MafHeader
-    from maflib.record import MafRecord
-    from maflib.validation import ValidationStringency as VS
-    from maflib.writer import MafWriter
-    modes = {"Strict": VS.Strict, "Lenient": VS.Lenient, "Silent": VS.Silent}
     for ann in ["gdc-1.0.0", "gdc-1.0.0-public"]:
-        sch = impl.scheme_by_annotation(ann)
         for line in colcases.line_cases(ann, rng, ctx.scale(40, 300)):
-            res = {}
-            for mname, mode in modes.items():
-                out.evaluations += 1
-                rec = MafRecord.from_line(line, scheme=sch, validation_stringency=VS.Silent)
-                with impl.LogCapture() as lc:
-                    try:
-                        errs = rec.validate(validation_stringency=mode, scheme=sch)
-                        res[mname] = {"errors": impl.errs_json(errs), "value": str(rec)}
-                    except Exception as e:  # noqa
-                        res[mname] = {"exc": exc_name(e)}
-                res[mname]["logs"] = lc.parsed()
-            check_entry(out, "record validation", {"scheme": ann, "line": line}, res,
-                        lambda r: r.get("errors") if "exc" not in r or not r["exc"].startswith("MafFormat") else [],
-                        lambda r: r.get("value"))
-            # writing
-            wres = {}
-            for mname, mode in modes.items():
-                out.evaluations += 1
-                rec = MafRecord.from_line(line, scheme=sch, validation_stringency=VS.Silent)
-                buf = io.StringIO()
-                buf.close = lambda: None
-                with impl.LogCapture() as lc:
-                    try:
-                        h = MafHeader.from_defaults(version=sch.version(), annotation=ann if ann != sch.version() else None)
-                        w = MafWriter.from_fd(buf, h, validation_stringency=mode)
-                        w += rec
-                        w.close()
-                        wres[mname] = {"errors": impl.errs_json(rec.validation_errors), "value": buf.getvalue()}
-                    except Exception as e:  # noqa
-                        wres[mname] = {"exc": exc_name(e), "value": buf.getvalue()}
-                wres[mname]["logs"] = lc.parsed()
-            check_entry(out, "writing", {"scheme": ann, "line": line}, wres,
-                        lambda r: r.get("errors") if "exc" not in r or not r["exc"].startswith("MafFormat") else [],
-                        lambda r: r.get("value") if "exc" not in r else None)
+            out.evaluations += 3
+            out.failures += eval_validate(ann, line)["failures"]
+            out.evaluations += 3
+            out.failures += eval_write(ann, line)["failures"]
 
 
 def search(ctx):
     return run(ctx)
+
+
+# ------------------------------------------------------------------ replay
+def _short(x, n=300):
+    import json
+    t = x if isinstance(x, str) else json.dumps(x, default=str, ensure_ascii=True)
+    return t if len(t) <= n else t[:n] + "... (%d chars)" % len(t)
+
+
+def _brief(r):
+    """What one mode returned: exception / collected errors / log records / size of the value."""
+    if not isinstance(r, dict):
+        return r
+    exc = r.get("exc") or r.get("init_exc") or r.get("iter_exc")
+    body = r.get("header") or r.get("rec") or r
+    errors = body.get("errors") if isinstance(body, dict) else None
+    if "records" in r and "errors" in r:
+        errors = r["errors"]
+    out = {"exc": exc, "errors": errors, "logs": r.get("logs")}
+    if "records" in r and isinstance(r["records"], list):
+        out["records"] = len(r["records"])
+    if "value" in r:
+        out["value"] = _short(r["value"], 80)
+    return out
+
+
+def replay_case(ctx, failure):
+    """Re-run the stored input in the three modes at the entry point it failed at; the failures it produces now
+    ([] = the three relations hold; None = the stored failure lacks the inputs: regenerate from the seed)."""
+    f = failure
+    entry = f.get("entry")
+    if entry == "header" and "lines" in f:
+        e = eval_header(f["lines"])
+        what = "MafHeader.from_lines(%s)" % _short(f["lines"], 200)
+    elif entry == "record" and all(k in f for k in ("scheme", "line", "lineno")):
+        if impl.scheme_by_annotation(f["scheme"]) is None:
+            return None
+        e = eval_record(f["scheme"], f["line"], f["lineno"])
+        what = "MafRecord.from_line(<%d fields>, scheme=%s, line_number=%s): %s" % (
+            len(f["line"].split("\t")), f["scheme"], f["lineno"], _short(f["line"], 200))
+    elif entry == "file" and all(k in f for k in ("lines", "given", "given_norestrict")):
+        e = eval_file(f["lines"], f["given"], f["given_norestrict"])
+        what = "MafReader(lines=<%d lines>, scheme=%s) iterated to the end: %s" % (
+            len(f["lines"]), ("NoRestrictionsScheme(%s)" % f["given_norestrict"]) if f["given_norestrict"] is not None else f["given"],
+            _short(f["lines"], 300))
+    elif entry in ("validate", "write") and all(k in f for k in ("scheme", "line")):
+        if impl.scheme_by_annotation(f["scheme"]) is None:
+            return None
+        e = (eval_validate if entry == "validate" else eval_write)(f["scheme"], f["line"])
+        what = ("record.validate(stringency, scheme=%s)" if entry == "validate" else "MafWriter(default %s header, stringency) += record") % f["scheme"] \
+            + " on the record parsed (Silent) from: %s" % _short(f["line"], 200)
+    else:
+        return None
+    print("replay C03 (%s), in Strict / Lenient / Silent mode: %s" % (entry, what))
+    for mode in ("Strict", "Lenient", "Silent"):
+        print("  implementation %-7s: %s" % (mode, _short(_brief(e["res"][mode]), 400)))
+    if e["req"] is not None:
+        # entry points the module compares with the model
+        _u, _d, dis, triples = compare_model(ctx, [e["req"]])
+        for r, m, i in triples:
+            print("  model %-7s: %s (%s)" % (r["mode"], _short(_brief(m), 400),
+                                             "outside the model" if has_unmodelled(m) else "agrees" if m == i else "differs"))
+    else:
+        print("  (this entry point is checked on the implementation only: no model answer)")
+    print("  oracle: %d failure(s)%s" % (len(e["failures"]), "".join("\n    - " + x["what"] for x in e["failures"])))
+    return e["failures"]
 
